@@ -376,7 +376,7 @@ class Evaluator(object):
                     if f.attr in ('keys', 'values', 'items'):
                         r = list(r)
                     return r
-            if isinstance(recv, (list, dict)) and f.attr == 'pop':
+            if isinstance(recv, (list, dict)) and f.attr == 'pop' or (isinstance(recv, set) and f.attr == 'pop' and len(recv) == 1):
                 try:
                     return recv.pop(*args)
                 except Exception as e:
